@@ -1480,15 +1480,10 @@ def replay_input(check, inp):
 
 
 def classify(pc, r):
-    if pc.name == "text_roundtrip" and r.get("kind") == "text-does-not-parse-back" and r.get("codec_mismatch") \
-            and r.get("network") in ("GRS", "GRSRT", "TGRS") and r.get("key_type") in (49, 84):
-        return "grs-bip49-bip84-checksum"
-    return None
+    return None        # no open finding (grs-bip49-bip84-checksum was fixed in /repo 26cc3b6)
 
 
-KNOWN_REPLAYS = {
-    "grs-bip49-bip84-checksum": lambda: chk_text_roundtrip("GRS", 49, bytes(range(16)), "", False),
-}
+KNOWN_REPLAYS = {}
 
 
 def search(rng, tier, disagreements, known_ids):
